@@ -1077,14 +1077,21 @@ impl State {
                     _ => return "bad-op".into(),
                 };
                 // scripted handler results: `a<i>` hands out saved message i (once), `err` fails
-                let mut script: std::collections::VecDeque<Option<DiameterMessage>> = Default::default();
+                // `~<ms>` behind either: the handler's future first sleeps that long (virtual time); `~y<k>`: it yields k times
+                // - a handler that really awaits something (a database, another peer) before it answers
+                let mut script: std::collections::VecDeque<(Option<DiameterMessage>, u64, u32)> = Default::default();
                 if *hs != "-" {
                     for t in hs.split(',') {
+                        let (t, wait) = match t.split_once('~') {
+                            Some((a, b)) => (a, b),
+                            None => (t, ""),
+                        };
+                        let (ms, yields) = if let Some(k) = wait.strip_prefix('y') { (0, k.parse::<u32>().unwrap_or(0)) } else { (wait.parse::<u64>().unwrap_or(0), 0) };
                         if t == "err" {
-                            script.push_back(None);
+                            script.push_back((None, ms, yields));
                         } else if let Some(i) = t.strip_prefix('a').and_then(|x| x.parse::<usize>().ok()) {
                             match self.saved.get_mut(i) {
-                                Some(slot) => script.push_back(slot.take()),
+                                Some(slot) => script.push_back((slot.take(), ms, yields)),
                                 None => return "bad-op".into(),
                             }
                         } else {
@@ -1104,8 +1111,16 @@ impl State {
                         c2.borrow_mut().push(dump_msg(&req));
                         let r = s2.borrow_mut().pop_front();
                         async move {
+                            if let Some((_, ms, yields)) = &r {
+                                if *ms > 0 {
+                                    tokio::time::sleep(std::time::Duration::from_millis(*ms)).await;
+                                }
+                                for _ in 0..*yields {
+                                    tokio::task::yield_now().await;
+                                }
+                            }
                             match r {
-                                Some(Some(m)) => Ok(m),
+                                Some((Some(m), _, _)) => Ok(m),
                                 _ => Err(diameter::Error::ServerError("scripted handler failure".into())),
                             }
                         }
@@ -1140,6 +1155,13 @@ impl State {
                 }
                 first
             }
+            ["amode", n] => match n.parse::<u32>() {
+                Ok(n) => {
+                    AMODE.with(|m| m.set(n));
+                    ".".into()
+                }
+                Err(_) => "bad-op".into(),
+            },
             ["rmode", n] => match n.parse::<u32>() {
                 Ok(n) => {
                     RMODE.with(|m| m.set(n));
@@ -1197,12 +1219,13 @@ impl State {
                 };
                 // `hbh:len[:ms]` - the optional third field lets (virtual) time pass before that send, so that whatever
                 // the reader can do with what has arrived happens first
-                let mut plan: Vec<(u32, usize, u64)> = vec![];
+                // a fourth field `b`: a request the wire cannot carry (a Time before 1900) - `send_message` fails for it
+                let mut plan: Vec<(u32, usize, u64, bool)> = vec![];
                 if *sends != "-" {
                     for t in sends.split(',') {
                         let mut it = t.split(':');
                         match (it.next().and_then(|x| x.parse().ok()), it.next().and_then(|x| x.parse().ok())) {
-                            (Some(h), Some(l)) => plan.push((h, l, it.next().and_then(|x| x.parse().ok()).unwrap_or(0))),
+                            (Some(h), Some(l)) => plan.push((h, l, it.next().and_then(|x| x.parse().ok()).unwrap_or(0), it.next() == Some("b"))),
                             _ => return "bad-op".into(),
                         }
                     }
@@ -1211,6 +1234,7 @@ impl State {
                 let reconnect = late.starts_with('c');
                 let late: Option<u32> = if *late == "-" { None } else { late.trim_start_matches('c').parse().ok() };
                 let dict = self.dict.clone();
+                let amode = AMODE.with(|m| m.get());
                 self.rt.block_on(async move {
                     use crate::sio::sync_hooks;
                     use diameter::transport::{DiameterClient, DiameterClientConfig};
@@ -1231,30 +1255,65 @@ impl State {
                     };
                     let count_reg = |u: &Arc<std::sync::Mutex<Vec<String>>>| u.lock().unwrap().iter().filter(|e| e.starts_with("reg:")).count();
                     let mut futs = vec![];
-                    for (i, (h, len, wait)) in plan.iter().enumerate() {
+                    for (i, (h, len, wait, bad)) in plan.iter().enumerate() {
                         if *wait > 0 {
                             tokio::time::sleep(std::time::Duration::from_millis(*wait)).await;
                         }
                         sync_hooks(&ulog);
                         ulog.lock().unwrap().push(format!("sb:{}", i));
                         let before = count_reg(&ulog);
-                        let r = client.send_message(request(*h, *len)).await;
+                        let mut req = request(*h, *len);
+                        if *bad {
+                            use chrono::TimeZone;
+                            req.add_avp(55, None, 0, diameter::avp::Time::new(chrono::Utc.with_ymd_and_hms(1850, 1, 1, 0, 0, 0).unwrap()).into());
+                        }
+                        let r = client.send_message(req).await;
                         sync_hooks(&ulog);
                         let registered = count_reg(&ulog) > before;
                         ulog.lock().unwrap().push(format!("ret:{}:{}", i, if r.is_ok() { "ok" } else { "err" }));
                         if registered {
-                            futs.push(r.ok());
+                            let mut fo = r.ok();
+                            let mut early: Option<String> = None;
+                            if amode == 1 {
+                                // the application looks at the future once right away (a `select!`, a short timeout) ...
+                                if let Some(f) = fo.as_mut() {
+                                    match tokio::time::timeout(std::time::Duration::ZERO, &mut *f).await {
+                                        Ok(Ok(m)) => early = Some(format!("got:{}:{}", m.get_hop_by_hop_id(), m.get_end_to_end_id())),
+                                        Ok(Err(_)) => early = Some("err".to_string()),
+                                        Err(_) => {}
+                                    }
+                                }
+                            }
+                            futs.push((fo, early));
                         }
                     }
                     let mut res: Vec<String> = vec![];
-                    for f in futs {
-                        res.push(match f {
-                            None => "none".to_string(),
-                            Some(f) => match tokio::time::timeout(std::time::Duration::from_secs(3600), f).await {
-                                Err(_) => "pending".to_string(),
-                                Ok(Ok(m)) => format!("got:{}:{}", m.get_hop_by_hop_id(), m.get_end_to_end_id()),
-                                Ok(Err(_)) => "err".to_string(),
+                    for (f, early) in futs {
+                        let show = |r: std::result::Result<diameter::Result<DiameterMessage>, tokio::time::error::Elapsed>| match r {
+                            Err(_) => "pending".to_string(),
+                            Ok(Ok(m)) => format!("got:{}:{}", m.get_hop_by_hop_id(), m.get_end_to_end_id()),
+                            Ok(Err(_)) => "err".to_string(),
+                        };
+                        res.push(match (f, early) {
+                            (_, Some(e)) => e,
+                            (None, _) => "none".to_string(),
+                            // ... and later hands it to another task, which waits for it there
+                            (Some(f), _) if amode == 1 => match tokio::spawn(async move {
+                                // (a future that only completes because the deadline's own timer polled it again was never
+                                // woken by its answer: that counts as pending)
+                                let t0 = tokio::time::Instant::now();
+                                let r = tokio::time::timeout(std::time::Duration::from_secs(3600), f).await;
+                                if t0.elapsed() >= std::time::Duration::from_secs(3599) {
+                                    return tokio::time::timeout(std::time::Duration::ZERO, std::future::pending::<diameter::Result<DiameterMessage>>()).await;
+                                }
+                                r
+                            })
+                            .await
+                            {
+                                Ok(r) => show(r),
+                                Err(_) => "panic".to_string(),
                             },
+                            (Some(f), _) => show(tokio::time::timeout(std::time::Duration::from_secs(3600), f).await),
                         });
                     }
                     let stopped = tokio::time::timeout(std::time::Duration::from_secs(3600), reader).await.is_ok();
@@ -1288,12 +1347,15 @@ impl State {
                     }
                     sync_hooks(&ulog);
                     let u = ulog.lock().unwrap();
+                    let wrote = stream.0.lock().unwrap().written.clone();
                     format!(
-                        "trace={} res={} stopped={} late={}",
+                        "trace={} res={} stopped={} late={} wrote={}:{}",
                         if u.is_empty() { "-".to_string() } else { u.join(",") },
                         if res.is_empty() { "-".to_string() } else { res.join(",") },
                         stopped as u8,
-                        late_res
+                        late_res,
+                        wrote.len(),
+                        fnv(&wrote)
                     )
                 })
             }
@@ -1379,6 +1441,9 @@ The codec is generic over `Read + Seek`; a `Cursor` returns everything asked for
 `Chain` or a socket need not. Mode 0 is the plain cursor; the other modes cap what one `read` call returns. Whatever the
 mode, the octets and the positions are the same, so every answer must be the same. */
 thread_local! { pub static RMODE: std::cell::Cell<u32> = std::cell::Cell::new(0); }
+// how the application waits for a response future (`amode <n>`): 0 = awaits it where it got it; 1 = polls it once, then
+// moves it into another task and awaits it there
+thread_local! { pub static AMODE: std::cell::Cell<u32> = std::cell::Cell::new(0); }
 
 pub struct Frag<'a> {
     c: Cursor<&'a [u8]>,
